@@ -40,9 +40,22 @@ type cfg struct {
 	Mode  string `json:"mode"`
 	Op    string `json:"op"` // keygen | sign
 	N     int    `json:"n"`
+	T     int    `json:"t,omitempty"` // key-generation threshold (0: n)
 }
 
-func (k cfg) String() string { return fmt.Sprintf("%s-%s-%s-n%d", k.Stack, k.Mode, k.Op, k.N) }
+func (k cfg) String() string {
+	if k.T != 0 {
+		return fmt.Sprintf("%s-%s-%s-n%dt%d", k.Stack, k.Mode, k.Op, k.N, k.T)
+	}
+	return fmt.Sprintf("%s-%s-%s-n%d", k.Stack, k.Mode, k.Op, k.N)
+}
+
+func (k cfg) t() int {
+	if k.T != 0 {
+		return k.T
+	}
+	return k.N
+}
 
 func ids(n int) []uint16 {
 	out := make([]uint16, n)
@@ -135,7 +148,7 @@ func run(c *harness.C, k cfg, f fault, r world.Chooser) *out {
 			}
 			p := w.Parties[id]
 			if k.Op == "keygen" {
-				cancels[id] = scen.StartKeyGen(w, p, rs, fmt.Sprint(id), k.N, k.N, deadline)
+				cancels[id] = scen.StartKeyGen(w, p, rs, fmt.Sprint(id), k.N, k.t(), deadline)
 			} else {
 				data := storedFor(id, members)
 				if k.Stack != "S" {
@@ -186,7 +199,7 @@ func run(c *harness.C, k cfg, f fault, r world.Chooser) *out {
 					fired = true
 					return []world.Event{{Label: "duplicate call at 1", Do: func() {
 						if k.Op == "keygen" {
-							scen.StartKeyGen(w, w.Parties[1], rs, "dup", k.N, k.N, deadline)
+							scen.StartKeyGen(w, w.Parties[1], rs, "dup", k.N, k.t(), deadline)
 						} else {
 							scen.StartSign(w, w.Parties[1], rs, "dup", []byte("digest-c11"), "topic-c11", deadline)
 						}
@@ -352,15 +365,17 @@ func gen(c *harness.C) []harness.Case {
 	stacks := []string{"S", "bls", "ps"}
 	for _, st := range stacks {
 		for _, m := range []string{"loud", "silent"} {
-			cfgs = append(cfgs, cfg{st, m, "keygen", 3})
+			cfgs = append(cfgs, cfg{Stack: st, Mode: m, Op: "keygen", N: 3})
 		}
 	}
 	for _, m := range []string{"loud", "silent"} {
-		cfgs = append(cfgs, cfg{"S", m, "sign", 3}, cfg{"bls", m, "sign", 3}, cfg{"ps", m, "sign", 3})
+		cfgs = append(cfgs, cfg{Stack: "S", Mode: m, Op: "sign", N: 3}, cfg{Stack: "bls", Mode: m, Op: "sign", N: 3}, cfg{Stack: "ps", Mode: m, Op: "sign", N: 3})
 	}
+	// key generation with a threshold below n: every participant is still needed
+	cfgs = append(cfgs, cfg{Stack: "bls", Mode: "loud", Op: "keygen", N: 3, T: 2}, cfg{Stack: "ps", Mode: "loud", Op: "keygen", N: 3, T: 2}, cfg{Stack: "S", Mode: "silent", Op: "keygen", N: 3, T: 2})
 	if c.Thorough() {
 		for _, m := range []string{"loud", "silent"} {
-			cfgs = append(cfgs, cfg{"S", m, "keygen", 4}, cfg{"bls", m, "keygen", 4}, cfg{"S", m, "sign", 4})
+			cfgs = append(cfgs, cfg{Stack: "S", Mode: m, Op: "keygen", N: 4}, cfg{Stack: "bls", Mode: m, Op: "keygen", N: 4}, cfg{Stack: "S", Mode: m, Op: "sign", N: 4}, cfg{Stack: "bls", Mode: m, Op: "keygen", N: 4, T: 2})
 		}
 	}
 	var cases []harness.Case
